@@ -392,6 +392,15 @@ func (cc *connectUnaryClientConn) validateResponse(response *http.Response) *Err
 	if compression != "" &&
 		compression != compressionIdentity &&
 		!cc.compressionPools.Contains(compression) {
+		if response.StatusCode != http.StatusOK {
+			// We can't read the body, so it can't tell us more than the HTTP
+			// status does (think of a proxy's compressed error page): as for the
+			// streaming client, the status decides.
+			return NewError(
+				connectHTTPToCode(response.StatusCode),
+				errors.New(response.Status),
+			)
+		}
 		return errorf(
 			CodeInternal,
 			"unknown encoding %q: accepted encodings are %v",
